@@ -249,7 +249,6 @@ class Oracle:
     def refresh(self, now):
         self.expire(now)
         self.last_reception = now
-        self.placeholder.clear()
 
     def judge(self, obs, nb, now):
         """returns list of (what, known_finding_id|None)"""
@@ -447,17 +446,31 @@ def check_case(ctx, case, clock, use_model=True):
         elif kf is not None:
             ctx.violation(what, dict(case, ops=case["ops"][:i + 1]), kf)
     if use_model and ctx.model_ok:
-        mo = ctx.model("LocT", model_lines(case))
-        for i, (r, m) in enumerate(zip(out, mo)):
-            if r != m:
-                ctx.mismatch("loct.history", {"case": dict(case, ops=case["ops"][:i]), "op": case["ops"][i - 1] if i else None},
-                             r, m)
-                break
+        ctx.extra.setdefault("_batch", []).append((case, out))
     for op in case["ops"]:
         ctx.cover("op_" + (op[1] if op[0] == "pkt" else op[0]))
     for line in out[1:]:
         ctx.cover("res_" + line.split(" ")[0] if line.split(" ")[0] in ("ok", "dup", "dad") else "res_other")
     ctx.nontrivial(("hist", case["base"], len(case["ops"]), case["lifetime_s"], case["dpl"]))
+
+
+def flush_model(ctx):
+    """one driver call for all histories collected by check_case (a `cfg` line resets the model state)"""
+    batch = ctx.extra.pop("_batch", [])
+    if not batch or not ctx.model_ok:
+        return
+    lines = []
+    for case, _ in batch:
+        lines += model_lines(case)
+    mo = ctx.model("LocT", lines)
+    k = 0
+    for case, out in batch:
+        for i, r in enumerate(out):
+            if r != mo[k + i]:
+                ctx.mismatch("loct.history", {"case": dict(case, ops=case["ops"][:i]), "op": case["ops"][i - 1] if i else None},
+                             r, mo[k + i])
+                break
+        k += len(out)
 
 
 # ------------------------------------------------------------------------------------------------ TST order
@@ -544,6 +557,7 @@ def run(ctx):
                 check_case(ctx, case, clock)
                 if i == 0:
                     ctx.sample("history", {"self": case["self"], "lifetime_s": case["lifetime_s"], "ops": case["ops"][:6]})
+            flush_model(ctx)
     finally:
         router_mod.Timer = threading.Timer
 
